@@ -135,11 +135,12 @@ type lockGen struct {
 	nextID     int
 	nv         int
 	mode       string
-	clean      bool // only requests the modules accept (the block message must then succeed)
-	exodus     bool // this block: every validator, the bedrock one included, withdraws everything (the whole set leaves at once)
-	afterBurst int  // burst mode: 2 = the next block adds a later maturity instant, 1 = the one after jumps the clock over both
+	clean      bool         // only requests the modules accept (the block message must then succeed)
+	exodus     bool         // this block: every validator, the bedrock one included, withdraws everything (the whole set leaves at once)
+	afterBurst int          // burst mode: 2 = the next block adds a later maturity instant, 1 = the one after jumps the clock over both
 	lastAbsent map[int]bool // who was absent in the previous block
-	boost      bool // this block: nothing but creations and generous locks, so that several validators are active afterwards
+	forceExit  bool         // this block: a clean exit (everything unlocked, claim) of one validator for sure
+	boost      bool         // this block: nothing but creations and generous locks, so that several validators are active afterwards
 }
 
 func (g *lockGen) id() int { g.nextID++; return g.nextID }
@@ -515,6 +516,28 @@ func (g *lockGen) plan() *BlockPlan {
 			id := g.id()
 			lk.Claims = append(lk.Claims, &goattypes.ClaimRequest{Id: uint64(id), Validator: addr, Recipient: rndAddr(r)})
 			claims = append(claims, Ev{"id": id, "v": vid})
+		}
+	}
+	if (rare(8) || g.forceExit) && !g.exodus && !g.boost {
+		// a clean exit: one validator (never the bedrock one) withdraws ALL it holds of every token and claims in the same block. It
+		// stays in CometBFT's set for two more blocks and keeps earning for its votes: a validator with nothing locked, nothing
+		// claimed-away, but fresh (late in a history: gas-only) rewards
+		for vi, v := range st.Val {
+			if vi == 0 || !v.Exists || (v.Status != "Active" && v.Status != "Pending") || (rare(2) && !g.forceExit) {
+				continue
+			}
+			for ti := range st.Tokens {
+				if v.Locking[ti] > 0 {
+					id := g.id()
+					lk.Unlocks = append(lk.Unlocks, &goattypes.UnlockRequest{Id: uint64(id), Validator: c.KR.Vals[vi].EthAddr(), Recipient: rndAddr(r),
+						Token: project.TokenAddrs[ti], Amount: big.NewInt(v.Locking[ti])})
+					unlocks = append(unlocks, Ev{"id": id, "v": vi + 1, "t": ti + 1, "amt": v.Locking[ti]})
+				}
+			}
+			id := g.id()
+			lk.Claims = append(lk.Claims, &goattypes.ClaimRequest{Id: uint64(id), Validator: c.KR.Vals[vi].EthAddr(), Recipient: rndAddr(r)})
+			claims = append(claims, Ev{"id": id, "v": vi + 1})
+			break
 		}
 	}
 	if g.mode == "burst" && rare(6) && len(existing) > 0 {
